@@ -568,10 +568,6 @@ package trzsz
 //@   ensures tbWF(t.buffer)
 //@ end
 
-//@ # ASSUMED: the trace logger writes to its own log file and fields only
-//@ func traceLogger.writeTraceLog trusted pure
-//@ end
-
 //@ # writers other than the connection are untouched (zlib writers used to encode a message are private)
 //@ pure othersKept(t *trzszTransfer) bool = \
 //@     (forall w int {wlog[w]} :: w != t.writer && !typeis(w, "*zlib.Writer") ==> wlog[w] == old(wlog)[w]) && \
@@ -1172,4 +1168,106 @@ package trzsz
 //@   before net.Conn.Write#1 assert [C17] result_of("net.Conn.Read", 1, 1) == nil && \
 //@       result_of("net.Conn.Read", 1, 0) == len(serverHello3) && \
 //@       (forall j int {buf[j]} :: 0 <= j && j < len(serverHello3) ==> buf[j] == serverHello3[j])
+//@ end
+
+// ===========================================================================
+// C06 / C05  the trigger detector (comm.go)
+// ===========================================================================
+
+//@ # the relay marks a forwarded trigger with "#R" after the version/id/port run; the 20 bytes the real
+//@ # client's pattern needs at the front ("::TRZSZ:TRANSFER:X:") and everything before them are untouched
+//@ func trzszDetector.addRelaySuffix
+//@   requires 0 <= idx
+//@   assigns bufLen, bufCap, bufArr, elemsof("byte")
+//@   ensures [C06] idx + 20 >= len(output) ==> same(r0, output)
+//@   ensures [C06] idx + 20 < len(output) ==> len(r0) == len(output) + 2
+//@   loop 1
+//@     invariant old(idx) + 20 <= idx && idx <= len(output)
+//@ end
+
+//@ # a redraw that repeats an id already seen is recognised: true is returned only for an id that was
+//@ # recorded before, and (where every id counts, i.e. in a Windows environment) an unseen id is recorded
+//@ func trzszDetector.isRepeatedID
+//@   requires detector.uniqueIDMap != nil
+//@   assigns detector.uniqueIDMap, mapof(detector.uniqueIDMap)
+//@   ensures detector.uniqueIDMap != nil
+//@   ensures [C06] r0 ==> old(has(detector.uniqueIDMap, uniqueID))
+//@   ensures [C06] len(uniqueID) <= 6 ==> !r0
+//@   ensures [C06] old(has(detector.uniqueIDMap, uniqueID)) && len(uniqueID) > 6 && windowsEnvironment ==> r0
+//@   ensures [C06] len(uniqueID) > 6 && windowsEnvironment ==> has(detector.uniqueIDMap, uniqueID)
+//@ end
+
+//@ # Output that is not a complete trigger starts nothing and is passed on as the very same slice;
+//@ # a repeated id starts nothing; what a trigger starts has the mode and version the pattern matched;
+//@ # a relay forwards the trigger marked as relayed.
+//@ func parseTrzszVersion pure
+//@   ensures r1 == nil ==> r0 != nil
+//@ end
+
+//@ func trzszDetector.detectTrzsz
+//@   requires detector.uniqueIDMap != nil
+//@   ensures [C05,C06] r1 == nil && !(detector.relay && detector.tmux) ==> same(r0, output)
+//@   ensures [C06] len(output) < 24 ==> r1 == nil
+//@   ensures [C06] result_of("bytes.LastIndex", 0, 0) < 0 ==> r1 == nil
+//@   ensures [C06] len(result_of("regexp.Regexp.FindSubmatch", 0, 0)) < 3 ==> r1 == nil
+//@   ensures [C06] result_of("trzszDetector.isRepeatedID", 0, 0) ==> r1 == nil
+//@   ensures [C06] result_of("parseTrzszVersion", 0, 1) != nil ==> r1 == nil
+//@   ensures [C06] r1 != nil ==> r1.mode == after("regexp.Regexp.FindSubmatch", 0, result_of("regexp.Regexp.FindSubmatch", 0, 0)[1][0]) && \
+//@       r1.version == result_of("parseTrzszVersion", 0, 0) && \
+//@       (r1.mode == 83 || r1.mode == 82 || r1.mode == 68)
+//@   ensures [C06] r1 != nil && detector.relay ==> same(r0, result_of("trzszDetector.addRelaySuffix", 0, 0))
+//@   ensures [C06] r1 != nil && !detector.relay ==> same(r0, result_of("bytes.ReplaceAll", 0, 0))
+//@   ensures [C06] len(result_of("regexp.Regexp.FindSubmatch", 1, 0)) > 1 && !tunnel ==> r1 == nil
+//@   ensures [C06] r1 != nil ==> r1.tunnelPort == 0 || r1.tunnelPort == result_of("strconv.Atoi", 0, 0)
+//@ end
+
+//@ func trzszDetector.rewriteTrzszTrigger pure
+//@ end
+
+// ===========================================================================
+// C05  transparency of the wrapper when idle (filter.go)
+// ===========================================================================
+
+//@ # Typed input: when no prompt pipe, no transfer and no zmodem session is active and drag detection
+//@ # is off (as read by this very call - any schedule), the chunk is written to the server unmodified,
+//@ # in order, exactly once, and nothing else is written anywhere.
+//@ func TrzszFilter.sendInput
+//@   ensures [C05] result_of("atomic.Pointer.Load[io.PipeWriter]", 0, 0) == nil && \
+//@       result_of("atomic.Pointer.Load[github.com/trzsz/trzsz-go/trzsz.trzszTransfer]", 0, 0) == nil && \
+//@       !old(filter.options.EnableZmodem) && !result_of("atomic.Bool.Load", 0, 0) && result_of("writeAll", 0, 0) == nil ==> \
+//@       wlen[old(filter.serverIn)] == old(wlen)[old(filter.serverIn)] + len(buf) && \
+//@       (forall k int {wlog[old(filter.serverIn)][k]} :: old(wlen)[old(filter.serverIn)] <= k && k < wlen[old(filter.serverIn)] ==> \
+//@           wlog[old(filter.serverIn)][k] == buf[k - old(wlen)[old(filter.serverIn)]]) && \
+//@       (forall w int {wlen[w]} :: w != old(filter.serverIn) ==> wlen[w] == old(wlen)[w])
+//@ end
+
+//@ # Remote output: with no trace log, whatever the output pump hands to the local terminal on the
+//@ # no-trigger path is the very chunk it read from the server - same backing array, same offset,
+//@ # same length - so no byte is rewritten, dropped inside the chunk or duplicated.
+//@ func newTrzszDetector
+//@   assigns nothing
+//@   ensures r0 != nil && r0.relay == relay && r0.tmux == tmux && r0.uniqueIDMap != nil
+//@ end
+
+//@ # the trace log (a debugging aid) hands back the chunk it was given unless the chunk carries one of
+//@ # the two markers that switch the log on or off
+//@ # (frame ASSUMED, not proved: the trace logger writes to its own log file, channel and fields only)
+//@ func traceLogger.writeTraceLog pure
+//@   ensures [C05] !result_of("bytes.Contains", 0, 0) && !result_of("bytes.Contains", 1, 0) ==> same(r0, buf)
+//@ end
+
+//@ func TrzszFilter.wrapOutput
+//@   loop 1
+//@     invariant !detector.relay && detector.uniqueIDMap != nil
+//@   before writeAll#1 assert [C05] same(result_of("traceLogger.writeTraceLog", 0, 0), buffer[0:n]) ==> \
+//@       dst == filter.clientOut && same(data, buffer[0:n]) && n == result_of("io.Reader.Read", 0, 0)
+//@   before writeAll#0 assert [C05] same(result_of("traceLogger.writeTraceLog", 0, 0), buffer[0:n]) ==> \
+//@       dst == filter.clientOut && same(data, buffer[0:n])
+//@ end
+
+//@ # the input pump hands every chunk it read, whole and as read, to sendInput, and closes the server's
+//@ # input only after the user's input reported end-of-file
+//@ func TrzszFilter.wrapInput
+//@   before TrzszFilter.sendInput#0 assert [C05] same(buf, buffer[0:n]) && n == result_of("io.Reader.Read", 0, 0) && n > 0
+//@   before io.WriteCloser.Close assert [C05] result_of("io.Reader.Read", 0, 1) == pkgvar("io.EOF")
 //@ end
